@@ -166,6 +166,26 @@ pub fn select_in_word_broadword(x: u64, k: u32) -> u32 {
     byte_offset + select_in_byte(target_byte, k_in_byte)
 }
 
+/// Verification hook: drives the private CTZ select loop directly.
+///
+/// Compiled only under `--cfg succinctly_verif`; not part of the public API.
+#[cfg(succinctly_verif)]
+#[doc(hidden)]
+#[inline]
+pub fn verif_select_in_word_ctz(x: u64, k: u32) -> u32 {
+    select_in_word_ctz(x, k)
+}
+
+/// Verification hook: drives the broadword select variant directly.
+///
+/// Compiled only under `--cfg succinctly_verif`; not part of the public API.
+#[cfg(succinctly_verif)]
+#[doc(hidden)]
+#[inline]
+pub fn verif_select_in_word_broadword(x: u64, k: u32) -> u32 {
+    select_in_word_broadword(x, k)
+}
+
 #[cfg(test)]
 mod tests {
     use super::*;
